@@ -57,14 +57,15 @@ def FS.init : FS := { cur := fun _ => none, oldDir := fun _ => false, old := fun
 inductive Call
   | mkdirAll (f : FileId)            -- MkdirAll(dir of <f>)
   | tempFile (f : FileId)            -- TempFile(<f>)
-  | writeFile (id : Nat) (c : Content) -- WriteFile(<tmp id>, data)
+  | writeFile (id : Nat) (f : FileId) (c : Content) -- WriteFile(<tmp id of f>, data)
   | stat (f : FileId)                -- Stat(<f>)
   | mkdirOld (f : FileId)            -- MkdirAll(<f>.old)
   | link (f : FileId)                -- Link(<f>, <f>.old/<now>)
   | copy (f : FileId)                -- Copy(<f>, <f>.old/<now>)  (fallback when Link fails)
   | rename (id : Nat) (f : FileId)   -- Rename(<tmp id>, <f>)
   | remove (f : FileId)              -- Remove(<f>)
-  | readDirOld (f : FileId)          -- ReadDir(<f>.old)
+  | readDirOld (f : FileId)          -- ReadDir(<f>.old), the directory must exist (destroyRotatedKeyByIndex)
+  | readDirHist (f : FileId)         -- ReadDir(<f>.old) by getHistoricalFilePaths: a missing directory is fine
   | removeOld (f : FileId) (t : Nat) -- Remove(<f>.old/<t>)
 deriving DecidableEq, Repr
 
@@ -75,7 +76,7 @@ of something absent report "does not exist", which the callers treat as success,
 def applyCall (fs : FS) : Call → Option FS
   | .mkdirAll _ => some fs
   | .tempFile f => some { fs with tmps := (fs.nextTmp, f, .empty) :: fs.tmps, nextTmp := fs.nextTmp + 1 }
-  | .writeFile id c =>
+  | .writeFile id _ c =>
       if (fs.tmps.any (·.1 = id)) then
         some { fs with tmps := fs.tmps.map fun t => if t.1 = id then (t.1, t.2.1, c) else t }
       else none
@@ -93,6 +94,7 @@ def applyCall (fs : FS) : Call → Option FS
       | none => none
   | .remove f => some { fs with cur := upd fs.cur f none }
   | .readDirOld f => if fs.oldDir f then some fs else none
+  | .readDirHist _ => some fs
   | .removeOld f t => some { fs with old := upd fs.old f ((fs.old f).filter (·.1 ≠ t)) }
 
 /-- run calls in order until one fails; returns the state reached and whether all succeeded -/
@@ -105,7 +107,7 @@ def applyAll (fs : FS) : List Call → FS × Bool
 /-- `WriteKeyFile(<f>, data)` with `backupHistoricalKeyFile` inlined: the calls depend on the state only
 through the existence of `<f>` (result of `Stat`) and the id of the temp file. -/
 def writeKeyFileCalls (fs : FS) (f : FileId) (c : Content) : List Call :=
-  [.mkdirAll f, .tempFile f, .writeFile fs.nextTmp c, .stat f] ++
+  [.mkdirAll f, .tempFile f, .writeFile fs.nextTmp f c, .stat f] ++
   (if (fs.cur f).isSome then [.mkdirOld f, .link f] else []) ++
   [.rename fs.nextTmp f]
 
